@@ -32,7 +32,7 @@ CLAIMS = {
     },
     "C06": {
         "text": "Theorems: the generated manifest name parses back to its generation number for every number, folder and stamp (exact condition: no line feed in folder or stamp); the zero-padded number is injective; writeOne numbers a generation latest+1 and names it NNNN_<folder>_<stamp>.mhl; for ascending loaded generations latest is the maximum, so the new name is fresh; adding a generation keeps every old manifest and every old chain entry at its index and appends exactly one; updating one history leaves every other ascmhl folder untouched; reload of generations 1..n plus the new one yields 1..n+1, by induction for any number of runs. Tie/monitor: byte snapshot of every pre-existing file of every ascmhl folder before/after each create, numbering, name shape under the injected clock (several runs per second), chain entries vs c4 of the bytes on disk, long histories (11-14 generations).",
-        "note": "Manifest bytes and their c4 digest are symbolic in the model (the monitor recomputes them from disk). " + COMMON_NOTE,
+        "note": "Manifest bytes and their c4 digest are symbolic in the model (the monitor recomputes them from disk). The <UTC time> of the name is the model's stampOfEpoch (Civil: calendar round trips, stamp_injective - runs in different seconds never share a stamp). " + COMMON_NOTE,
         "technique": "Lean 4 proof (digit arithmetic, sortedness invariant, induction over runs) + scenario differential + byte-level monitor",
         "design_ref": "7 C06",
     },
@@ -92,7 +92,7 @@ CLAIMS = {
     },
     "C16": {
         "text": "Theorems about CPython's naive-local-time resolution as written (fromtimestamp fold detection, local_to_seconds) over arbitrary offset functions: in a constant zone and in any zone with one transition the round trip mktime(fromtimestamp(t)) = t holds for ALL instants iff the offset drops by at most the 24 h probe window (exact condition, with witnesses beyond it); hence the printed value denotes the file's instant and carries the offset in force at that instant, independent of 'now'; the former formatter is off by exactly z(t) - z(now) and right iff both lie on the same side of the switch; the fold bit is set exactly in the second pass of a repeated interval and dropping it yields the first pass; the offset text has the shape [+-]hh:mm for whole-minute offsets and is injective; the size attribute is present for every length (0 included) and injective. Tie/monitor: datetime_isostring through the real libc path under 12-17 zones (IANA and POSIX rule strings, half-hour and 45-minute offsets, both hemispheres) at every 2026 transition -2h..+2h (both passes, both sides of gaps) vs an independent ISO parser and zoneinfo; model vs implementation on the same zone tables; whole create runs: size, lastmodificationdate, hashdate, creationdate, UTC file name.",
-        "note": "Rendering of the civil fields (year..second) by datetime.isoformat and libc's zone data are trusted and exercised, not proved. " + COMMON_NOTE,
+        "note": "libc's zone data is trusted and exercised, not proved. The rendering of the civil fields is modelled (MhlModel/Civil.lean: day count <-> calendar date round trips for all integers, stamp_injective) and tied to datetime arithmetic and to the names the real create writes. " + COMMON_NOTE,
         "technique": "Lean 4 proof (integer arithmetic over offset functions, omega) + zone-table differential + independent ISO parser monitor",
         "design_ref": "7 C16",
     },
@@ -123,7 +123,7 @@ CLAIMS = {
     "C15": {
         "text": "Theorems about the write protocol of the repaired code (manifest and chain each written to <name>.tmp and moved into place with an atomic replace; children before parents) for EVERY crash state (every prefix of the operations, the last write torn at any byte) and every file system: every other path keeps its bytes (all previously committed manifests, all media); the chain is the old one or the complete new one, never partial; the manifest is absent or complete; a new chain implies a complete manifest; the only partial files are the two temporaries, which the loader never looks at; stale temporaries of an earlier crash change nothing; for several histories the crash state is some complete commits followed by one interrupted commit, and a parent's chain is new only if all its children's commits are complete; with at least one prior generation no crash state is refused with 32. The residual is a theorem too: a FIRST-ever create has crash states (after mkdir / between the two replaces) that every command refuses with 32 - recorded as known finding D6b because C05 demands exactly that refusal. Tie/monitor: the recorded file-system operations of the real create must be accepted by the model's protocol automaton; every crash state is materialised on a copy of the pre-state and examined with info/verify (committed manifests identical, chain parses and lists them, no partial generation visible).",
         "note": "Process kill, not power loss (no reordering of writes); os.replace atomic.  Two enumerations on the real code: kill states (every prefix of the recorded operations, last write whole/absent/torn, and the same prefixes with user-space buffers lost) and interruptions that unwind through the tool's handlers (Ctrl-C / failing system call at every mutating call); each state is examined with info, verify and a following create (history loads, info shows exactly what the chain lists, the chain stays gap-free). D17 (unlisted leftover manifest) was found and repaired through this; C06.interrupted_generation_absent is the corresponding theorem." + COMMON_NOTE,
-        "technique": "Lean 4 proof (phase characterisation of every crash state) + operation-trace refinement + exhaustive crash-state replay on the implementation",
+        "technique": "Lean 4 proof (phase characterisation of every crash state) + operation-trace refinement + exhaustive crash-state replay on the implementation The known finding D6b is identified by a signature that CrashRun states as theorems: in the order the code has (hash everything, then commit) every refusing crash point lies in the window after which nothing is read any more; a run that makes the folder before hashing refuses outside it.",
         "design_ref": "7 C15",
     },
     "C20": {
